@@ -27,7 +27,7 @@ HARNESSES = [
 ]
 GROUPS = {"sem": "check_sem", "ll": "check_ll", "mq": "check_mq", "storm": "check_storm", "mqstorm": "check_mqstorm"}
 EXPLAIN = {"sem": "explain_sem", "ll": "explain_ll", "mq": "explain_mq"}
-CASES = {"quick": 500, "thorough": 6000}
+CASES = {"quick": 1500, "thorough": 8000}
 RULE = ("cases: operation sequences on the real Semaphore / LimitListener (fake inner listener) / Broker (raw TCP clients, "
         "connections parked between the two cap checks); observables compared with the model after EVERY operation; "
         "non-trivial = at least one permit taken / connection accepted; classes add: waiter queued(+1) shrink queued or refusal(+2) "
@@ -88,7 +88,7 @@ def encode(c):
                 continue
             ops.append({0: "SAcq", 1: "SRel"}.get(op[0]) or C("SSet", Z(op[1])))
         steps = [Rec(o_cur=Z(s["cur"]), o_real=Z(s["real"]), o_held=Z(s["held"]), o_done=Z(s["done"]),
-                     o_panics=Z(s["panics"]), o_wq=_zl(s.get("wq"))) for s in o.get("steps") or []]
+                     o_panics=Z(s["panics"]), o_wq=_zl(s.get("wq")), o_skip=B(s.get("skip"))) for s in o.get("steps") or []]
         return Rec(sc_init=Z(i["init"]), sc_M=Z(i["M"]), sc_ops=L(ops), sc_obs=L(steps),
                    sc_desync=B(o.get("desync")), sc_crash=B(o.get("crash")))
     if g == "ll":
